@@ -27,6 +27,7 @@ func c17(tier string) {
 		"a per-case wall-clock watchdog (180 s, cases take milliseconds) reports hangs separately (key `hang`)",
 	}
 	n := ctx.N(5000, 120000)
+	ctx.HangIsViolation = true
 	if !ctx.IsShard() {
 		ctx.RunShards()
 		ctx.MinDistinct = 1000
